@@ -15,6 +15,7 @@ package main
 import (
 	"fmt"
 	"go/token"
+	"go/types"
 	"strings"
 
 	"golang.org/x/tools/go/ssa"
@@ -387,4 +388,97 @@ func t4use(p *Prog, ins ssa.Instruction, S map[ssa.Value]bool, st map[ssa.Value]
 		return fmt.Sprintf("%s is %s at %s after the buffer was put back", valueString(*op), what, p.instrPos(ins))
 	}
 	return ""
+}
+
+// T5 — a view of a pooled buffer that has no upper bound is only written into. What lies in a pooled buffer beyond the
+// bytes the current call has written is whatever an earlier user left there; a slice `buf[k:]` (no high bound) handed
+// to something that reads it (the source of a copy or XOR, a checksum, an append) feeds those stale bytes into the
+// result. Such a view may be the destination of a copy, a MarshalTo/Read/PutUintNN target, or be cut down again with
+// an upper bound; anything else fires.
+
+func init() {
+	registerEngine("T5", []string{"T5"}, runEngineT5)
+}
+
+func runEngineT5(p *Prog, o *obls) {
+	n := 0
+	for _, fn := range p.Funcs {
+		k := 0
+		instrsOf(fn, func(in ssa.Instruction) {
+			sl, ok := in.(*ssa.Slice)
+			if !ok || sl.High != nil || sl.Referrers() == nil {
+				return
+			}
+			if _, isSlice := sl.X.Type().Underlying().(*types.Slice); !isSlice {
+				return
+			}
+			get := poolBufferOrigin(p, sl.X)
+			if get == nil {
+				return
+			}
+			n++
+			k++
+			key := fmt.Sprintf("%s:open-view", funcKey(fn))
+			if k > 1 {
+				key = fmt.Sprintf("%s#%d", key, k)
+			}
+			var bad []string
+			var check func(v ssa.Value, d int)
+			check = func(v ssa.Value, d int) {
+				if v.Referrers() == nil || d > 4 {
+					return
+				}
+				for _, r := range *v.Referrers() {
+					switch x := r.(type) {
+					case *ssa.DebugRef:
+					case *ssa.Slice:
+						if x.X == v && x.High == nil {
+							check(x, d+1) // still open above
+						}
+					case *ssa.Phi:
+						check(x, d+1)
+					case *ssa.IndexAddr:
+						// indexed access: bounds-checked against the buffer, byte by byte under the caller's own loop bound
+					case *ssa.Call:
+						if b := builtinName(&x.Call); b != "" {
+							if b == "copy" && x.Call.Args[0] == v && x.Call.Args[1] != v {
+								continue
+							}
+							if b == "len" || b == "cap" {
+								continue
+							}
+							bad = append(bad, fmt.Sprintf("it is read by %s at %s", b, p.instrPos(x)))
+							continue
+						}
+						args := x.Call.Args
+						if x.Call.IsInvoke() {
+							args = append([]ssa.Value{x.Call.Value}, args...)
+						}
+						name := calleeName(&x.Call)
+						dst := false
+						if idx, ok := externalWriters[name]; ok && idx < len(args) && args[idx] == v {
+							dst = true
+						}
+						if sc := x.Call.StaticCallee(); sc != nil && (sc.Name() == "MarshalTo" || sc.Name() == "Read") && len(args) > 1 && args[1] == v {
+							dst = true
+						}
+						if !dst {
+							bad = append(bad, fmt.Sprintf("it is handed to %s at %s", shortCallee(name), p.instrPos(x)))
+						}
+					default:
+						if in2, ok := r.(ssa.Instruction); ok {
+							bad = append(bad, fmt.Sprintf("it is used at %s", p.instrPos(in2)))
+						}
+					}
+				}
+			}
+			check(sl, 0)
+			if len(bad) > 0 {
+				o.bad("T5", key, p.instrPos(sl), fmt.Sprintf("%s is a view of the pooled buffer (taken from the pool at %s) with no upper bound, and %s: what lies beyond the bytes written by this call is left over from an earlier user of the buffer", shortExpr(p, sl), p.instrPos(get), strings.Join(dedupe(bad), "; ")))
+			} else {
+				o.ok("T5", key, p.instrPos(sl), "the open-ended view of the pooled buffer is only a write destination")
+			}
+		})
+	}
+	o.ok("T5", "inspected", "-", fmt.Sprintf("%d open-ended view(s) of pooled buffers", n))
 }
